@@ -5,14 +5,16 @@ from .common import total
 
 FUNCTIONS = ["wccn.WCCN.fit (NumPy and Dask branch, function-local imports)", "wccn.WCCN.transform", "whitening.Whitening.fit (NumPy and Dask branch)", "whitening.Whitening.transform"]
 STUBS = ["scipy.linalg.inv / dask.array.linalg.inv: closed form (n <= 2)", "scipy.linalg.cholesky(lower=True): Cholesky-Banachiewicz with sqrt nodes (n <= 2)",
-         "numpy.cov / dask.array.cov: (Xc Xc^T)/(N-1)", "dask.array model"]
+         "numpy.cov / dask.array.cov: (Xc Xc^T)/(N-1)", "dask.array model", "scipy.linalg.pinv: on the assumed full-rank input it is the inverse (same stub as inv)"]
 ASSUMPTIONS = ["full rank: the scatter / covariance matrix is positive definite (leading minors > 0)", "each class has at least one sample; labels are integers",
                "D = 1: everything end-to-end in closed form (identity covariance proved). D >= 2 (staged): inverse and Cholesky are uninterpreted functions with their contract (A M = I, L L^T = A, L lower with positive diagonal); proved: the matrix handed to inv is the oracle scatter/covariance, the weights are chol_lower(inv(.)) of it; W^T S W = I then follows by linear algebra (trusted) and is checked numerically on every replay/validation run"]
 EXHAUSTIVE = ["label sets {0,1}, {1,0}, {3,7}, {7,3}, {-1,0}, {5,-2} x sample orders (sorted, interleaved, reversed)", "NumPy and Dask input, row chunkings"]
-OUTSIDE = ["D > 3", "pinv=True", "rounding"]
+OUTSIDE = ["D > 3", "rank-deficient input (where pinv and inv differ)", "rounding"]
 LABELINGS = [
     ("01-sorted", [0, 0, 1, 1]), ("10-sorted", [1, 1, 0, 0]), ("37-sorted", [3, 3, 7, 7]), ("73-interleaved", [7, 3, 7, 3]), ("neg", [-1, 0, 0, -1]),
     ("5m2", [5, -2, -2, 5]), ("unequal", [2, 9, 9, 9, 2]), ("three", [4, 0, -3, 0, 4, -3]), ("one-class", [6, 6, 6]), ("setorder", [-5, 40, 7, 40, -5, 7]),
+    # classes with a single sample: they add nothing to the scatter but count as classes
+    ("singleton", [3, 8, 3, -1, 8]), ("two-singletons", [12, -3, 12, 5, 12, 40]),
 ]
 
 
@@ -55,7 +57,7 @@ def scatter(X, groups, D, scale):
     return [[S[a][b] * scale for b in range(D)] for a in range(D)]
 
 
-def sc_wccn(B, D, labels, dask_chunks=None, staged=False):
+def sc_wccn(B, D, labels, dask_chunks=None, staged=False, pinv=False):
     wc = B.mod("wccn")
     N = len(labels)
     X = B.arr("x", (N, D))
@@ -65,7 +67,7 @@ def sc_wccn(B, D, labels, dask_chunks=None, staged=False):
     S = scatter(X, groups, D, 1.0 / K)
     assume_pd(B, S, D)
     data = B.copy(X) if dask_chunks is None else B.darr(B.copy(X), (dask_chunks, (D,)))
-    m = wc.WCCN()
+    m = wc.WCCN(pinv=True) if pinv else wc.WCCN()
     m.fit(data, list(labels))
     o = Outcome()
     W = o_chol_inv(B, S, D, staged)
@@ -92,14 +94,14 @@ def sc_wccn(B, D, labels, dask_chunks=None, staged=False):
     return o
 
 
-def sc_whitening(B, D, N, dask_chunks=None, staged=False):
+def sc_whitening(B, D, N, dask_chunks=None, staged=False, pinv=False):
     wh = B.mod("whitening")
     X = B.arr("x", (N, D))
     mu = [total([X[i][d] for i in range(N)]) / N for d in range(D)]
     S = [[total([(X[i][a] - mu[a]) * (X[i][b] - mu[b]) for i in range(N)]) / (N - 1) for b in range(D)] for a in range(D)]
     assume_pd(B, S, D)
     data = B.copy(X) if dask_chunks is None else B.darr(B.copy(X), (dask_chunks, (D,)))
-    m = wh.Whitening()
+    m = wh.Whitening(pinv=True) if pinv else wh.Whitening()
     m.fit(data)
     o = Outcome()
     W = o_chol_inv(B, S, D, staged)
@@ -128,6 +130,8 @@ def job_wccn(P, D, name, labels):
     st = D >= 2
     la = "uf" if st else "closed"
     P.run("wccn-" + name, sc_wccn, dict(D=D, labels=labels, staged=st), validate=1, linalg=la)
+    if name in ("unequal", "three", "singleton"):
+        P.run("wccn-pinv-" + name, sc_wccn, dict(D=D, labels=labels, staged=st, pinv=True), validate=1, linalg=la)
     N = len(labels)
     P.run("wccn-dask-" + name, sc_wccn, dict(D=D, labels=labels, dask_chunks=(1, N - 1), staged=st), validate=1, linalg=la)
     if N >= 4:
@@ -170,6 +174,7 @@ def job_whitening(P, D, N):
     st = D >= 2
     la = "uf" if st else "closed"
     P.run("whitening", sc_whitening, dict(D=D, N=N, staged=st), validate=2, linalg=la)
+    P.run("whitening-pinv", sc_whitening, dict(D=D, N=N, staged=st, pinv=True), validate=2, linalg=la)
     for ch in ((1, N - 1), (N - 1, 1)):
         P.run("whitening-dask-%d+%d" % ch, sc_whitening, dict(D=D, N=N, dask_chunks=ch, staged=st), validate=1, linalg=la)
 
